@@ -247,6 +247,7 @@ func (x *Exec) callByContract(st *State, ins ssa.Instruction, full string, fc *F
 		// callee may allocate
 		nb := x.D.Fresh("A", SInt)
 		st.Assume(fmt.Sprintf("(>= %s %s)", nb, preAlloc))
+		noteAllocBase(nb, st.AllocBase, st.AllocOff)
 		st.AllocBase, st.AllocOff = nb, 0
 		res = x.freshResults(st, "r."+lastName(short), sig.Results())
 	}
@@ -397,7 +398,11 @@ func (x *Exec) pureAxiom(full string, fc *FuncContract, sig *types.Signature, pn
 		x.D.Axiom(body)
 		return
 	}
-	x.D.Axiom(fmt.Sprintf("(forall (%s) (! %s :pattern (%s)))", strings.Join(binders, " "), body, pats[0]))
+	var ps []string
+	for _, p := range pats {
+		ps = append(ps, ":pattern ("+p+")")
+	}
+	x.D.Axiom(fmt.Sprintf("(forall (%s) (! %s %s))", strings.Join(binders, " "), body, strings.Join(ps, " ")))
 }
 
 // applyPure: f$(args) in a contract.
@@ -790,6 +795,9 @@ func (x *Exec) appendOp(st *State, ins ssa.Instruction, s, e Value, call *ssa.Ca
 		n := app("+", app("slen", s.Term), app("strlen", e.Term))
 		return x.mk(fmt.Sprintf("(mk_slice %s %s %s)", r, n, n), s.Typ)
 	}
+	if x.exploded(et) {
+		return x.appendStructs(st, s, e, et)
+	}
 	arr := x.elemArr(st, es)
 	name := x.TM.ElemArray(es)
 	r := x.alloc(st)
@@ -931,6 +939,17 @@ func (x *Exec) ownModifies() []modTarget {
 // writeAllowed builds the condition under which a write to (arr, ref) is permitted.
 func (x *Exec) writeAllowed(st *State, arr, ref string) string {
 	conds := []string{app(">=", ref, "A0")}
+	if strings.HasPrefix(ref, "(elemref ") {
+		parts := splitSexp(ref[1 : len(ref)-1])
+		if len(parts) == 3 {
+			conds = append(conds, app(">=", parts[1], "A0"))
+			for _, t := range x.ownModifies() {
+				if t.kind == "elems" {
+					conds = append(conds, Eq(parts[1], t.ref))
+				}
+			}
+		}
+	}
 	for _, t := range x.ownModifies() {
 		if t.arr == arr {
 			conds = append(conds, Eq(ref, t.ref))
@@ -961,6 +980,13 @@ func (x *Exec) checkWrite(st *State, p *Pointer, ins ssa.Instruction) {
 	} else {
 		n, _ := x.TM.FieldArray(p.Steps[0].Struct, p.Steps[0].St, p.Steps[0].Field)
 		arrs = append(arrs, n)
+	}
+	if strings.HasPrefix(p.Base, "(elemref ") {
+		parts := splitSexp(p.Base[1 : len(p.Base)-1])
+		if len(parts) == 3 && x.freshSyntactic(st, parts[1]) {
+			x.goWriteCheck(st, p, ins)
+			return
+		}
 	}
 	if strings.HasPrefix(p.Base, "(+ A") || strings.HasPrefix(p.Base, "A") && !strings.Contains(p.Base, " ") {
 		// syntactically fresh (allocated in this activation)
@@ -1074,4 +1100,44 @@ func (x *Exec) anchors(st *State, anchor string, env *Env) {
 		x.emit(st, "assert", lab, g, a.C.Src)
 		st.Assume(g)
 	}
+}
+
+// appendStructs: append for slices of struct elements (exploded representation). The fresh backing array's
+// element objects are cells never read before, so their contents are fixed by assumption (allocation by choosing).
+func (x *Exec) appendStructs(st *State, s, e Value, et types.Type) Value {
+	stt := types.Unalias(et).Underlying().(*types.Struct)
+	r := x.alloc(st)
+	ls := x.lenOf(st, s, false, nil)
+	le := x.lenOf(st, e, false, nil)
+	x.elemRef(r, "0")
+	var k int
+	concrete := false
+	if _, err := fmt.Sscanf(le, "%d", &k); err == nil && fmt.Sprintf("%d", k) == le && k <= 16 {
+		concrete = true
+	}
+	for i := 0; i < stt.NumFields(); i++ {
+		name, vs := x.TM.FieldArray(et, stt, i)
+		arr := x.heapArr(st, name, SInt, vs)
+		if !isNilSlice(s.Term) {
+			st.Assume(fmt.Sprintf("(forall ((i!q Int)) (! (=> (and (<= 0 i!q) (< i!q %s)) (= (select %s (elemref %s i!q)) (select %s (elemref (sbase %s) i!q)))) :pattern ((elemref %s i!q))))", ls, arr, r, arr, s.Term, r))
+		}
+		if concrete {
+			for j := 0; j < k; j++ {
+				dst := app("+", ls, fmt.Sprintf("%d", j))
+				if ls == "0" {
+					dst = fmt.Sprintf("%d", j)
+				}
+				st.Assume(Eq(Select(arr, x.elemRef(r, dst)), Select(arr, x.elemRef(app("sbase", e.Term), fmt.Sprintf("%d", j)))))
+			}
+		} else {
+			st.Assume(fmt.Sprintf("(forall ((j!q Int)) (! (=> (and (<= 0 j!q) (< j!q %s)) (= (select %s (elemref %s (+ %s j!q))) (select %s (elemref (sbase %s) j!q)))) :pattern ((elemref (sbase %s) j!q))))", le, arr, r, ls, arr, e.Term, e.Term))
+		}
+	}
+	n := app("+", ls, le)
+	if ls == "0" {
+		n = le
+	}
+	nc := x.D.Fresh("appcap", SInt)
+	st.Assume(fmt.Sprintf("(>= %s %s)", nc, n))
+	return x.mk(fmt.Sprintf("(mk_slice %s %s %s)", r, n, nc), s.Typ)
 }
